@@ -19,11 +19,12 @@ for f in sorted(glob.glob("/tmp/mutverify*.log")):
 for f in sorted(glob.glob("/tmp/mutrun*.log"), key=os.path.getmtime):
     cur = None
     for line in open(f, errors="replace"):
-        m = re.match(r"== mutant=(C\d\d)(\w)(\d)x* prop=(C\d\d) tier=(\w+) exit=(\d+) secs=(\d+)", line)
+        m = re.match(r"== mutant=(C\d\d)(\w)(\d)\w* prop=(C\d\d) tier=(\w+) exit=(\d+) secs=(\d+)(?: at=(\d+) verif=(\w+))?", line)
         if m:
             cur = "%s-%s%s" % (m.group(1), m.group(2), m.group(3))
             detect.setdefault(cur, []).append({"check": "./check %s %s" % (m.group(4), m.group(5)), "exit": int(m.group(6)),
-                                               "secs": int(m.group(7)), "signatures": [], "log": os.path.basename(f)})
+                                               "secs": int(m.group(7)), "signatures": [], "log": os.path.basename(f),
+                                               "at": int(m.group(8) or 0), "verif_commit": m.group(9)})
         elif cur and line.startswith("  C") and "|" in line:
             sig = line.strip().split(": ")[0]
             sig = re.sub(r"mw-\w+/", "", sig)
@@ -42,7 +43,8 @@ for mid, d in sorted(DESC.items()):
     elif not os.path.isdir(dst):
         print("missing deliverable", mid)
         continue
-    runs = detect.get(mid, [])
+    # chronological: runs with a timestamp after those without (older log format)
+    runs = sorted(detect.get(mid, []), key=lambda r: r["at"])
     meta = {
         "id": mid, "property": prop,
         "author": "independent sub-agent given only the property text and a scratch worktree of /repo",
